@@ -85,7 +85,7 @@ def confirm_episode(rep, resp):
             for b in range(B):
                 if not orcs[b].complete(sts[b]):
                     return True, f"row {b}: environment reports done but the solution is incomplete"
-                bad = [k for k, v in sts[b].viol.items() if v]
+                bad = [k for k, v in sts[b].viol.items() if v and not k.startswith("canonical:")]
                 if bad:
                     return True, f"row {b}: mask-admitted episode violates {bad}"
             return False, "oracle finds the real episode feasible"
@@ -130,6 +130,27 @@ def rollout_requests(pairs, seed, B=2):
 
 
 def diff_validate(req, resp):
+    """float32-emulating concrete run first; a disagreement only counts if the double-precision concrete run
+    disagrees with real torch as well (otherwise the instance sits on a rounding boundary: noted, not an error)"""
+    from symtorch import scalar as SC
+
+    SC.F32 = True
+    bad32 = _diff_validate(req, resp)
+    hard = [b for b in bad32 if "oracle" not in b]
+    if not hard:
+        return bad32
+    SC.F32 = False
+    try:
+        bad64 = _diff_validate(req, resp)
+    finally:
+        SC.F32 = True
+    hard64 = [b for b in bad64 if "oracle" not in b]
+    if not hard64 or [b.split(":")[0] for b in hard64] != [b.split(":")[0] for b in hard]:
+        return [f"oracle-side note: rounding-sensitive instance (float32 vs float64 concrete runs differ): {hard[0][:200]}"]
+    return bad32
+
+
+def _diff_validate(req, resp):
     """run the same instance + actions through symtorch in concrete mode; compare masks / done / reward.
     Returns list of disagreement strings (empty = agrees)."""
     if "error" in resp:
@@ -181,7 +202,7 @@ def diff_validate(req, resp):
                 st = o.start()
                 for t, a in enumerate(resp["actions"]):
                     o.step(st, a[b], not resp["done"][t][b], t)
-                if not o.complete(st) or any(st.viol.values()):
+                if not o.complete(st) or any(v for k, v in st.viol.items() if not k.startswith("canonical:")):
                     bad.append(f"{req['spec']}[{variant}] row {b}: oracle rejects a real mask-confined rollout: complete={o.complete(st)} viol={[k for k, v in st.viol.items() if v]} actions={[x[b] for x in resp['actions']]}")
                 obj = o.objective(st)
                 rr = list(flat(resp["reward"]))[b]
